@@ -6,7 +6,7 @@ statement on the raw bytes."""
 import itertools
 import os
 
-from vf.harness import use_world, outcome, freeze, sample, guarded, add_histories, history_of
+from vf.harness import use_world, outcome, freeze, sample, guarded, add_histories, history_of, LongLived
 from vf.simk.world import World
 
 ID = "C12"
@@ -62,7 +62,7 @@ def mk_world(seed):
     return w, p
 
 
-def run_case(case, st):
+def _run_case(case, st):
     import psutil
     w, p = st
     p.comm, p.zombie, p.exe, p.cwd = b"x", False, "/bin/x", "/"
@@ -75,7 +75,7 @@ def run_case(case, st):
     def chk(what, got, ok, exp):
         if not ok:
             bad.append(("%s:%s" % (k, what), "%s: got %r expected %r (case %r)" % (what, freeze(got), exp, case)))
-    pr = psutil.Process(p.pid)
+    pr = LongLived.get(psutil, w, p.pid)
     if k == "cmdline":
         data, zombie = case[1], case[2]
         p.cmdline = data
@@ -195,6 +195,12 @@ def run_case(case, st):
             p.zombie = False
             p.wstatus = None
     return bad
+
+
+def run_case(case, st):
+    # exe() is cached for the life of the object by the statement itself; a process that is made to vanish inside the case
+    # leaves the object of later cases in a state the case did not set up
+    return LongLived.both(_run_case, case, st, skip=lambda c: (c[0] == "link" and (c[1] == "exe" or c[3] == "gone")) or c[0] == "name")
 
 
 def worker(chunk):
